@@ -337,8 +337,62 @@ func shortName(uri string) string {
 	return uri
 }
 
+// c09chan: forged chunks on secured client and server channels through readChunk (which overwrites the policy URI from
+// the unauthenticated OPN header before anything is verified).
+func c09chan(r *rng.R, n int) {
+	i := 0
+	for _, kind := range []string{"client", "server"} {
+		for _, mode := range []int{2, 3} {
+			for _, opening := range []int{1, 2} {
+				for rep := 0; rep < n; rep++ {
+					p := toyParams{Block: 16, KC: byte(r.Range(1, 255)), KM: uint32(r.U64()), SL: 32, RSL: 32}
+					op := toyParams{Block: 16, KC: byte(r.Range(1, 255)), KM: uint32(r.U64()), SL: 32, RSL: 32}
+					c := c13case{Name: fmt.Sprintf("chan%d", i), Kind: kind, Mode: mode, Opening: opening, OpenP: op, Insts: []toyParams{p}, Cap: 65535, Cert: hx(cert())}
+					i++
+					body := svcBody(3, r.Bytes(r.Intn(12)))
+					uri := ua.SecurityPolicyURIBasic256Sha256
+					send := uasc.VerifNewInstance(uri, ua.MessageSecurityMode(mode), toyAlgo(p), chanID, tokID, 0)
+					own := func(seq uint32) namedFrame {
+						raw := symChunk("MSG", 'F', chanID, tokID, seq, 6, body)
+						b, err := send.SignAndEncrypt(symMessage(seq, 6), raw)
+						if err != nil {
+							panic(err)
+						}
+						return namedFrame{b, true, "own MSG"}
+					}
+					plainMsg := namedFrame{symChunk("MSG", 'F', chanID, tokID, 9, 6, body), false, "plaintext MSG"}
+					opnNone, _ := rawOpn(ua.SecurityPolicyURINone, nil, nil, 1, uint32(r.Intn(3)), body)
+					opnNoneCert, _ := rawOpn(ua.SecurityPolicyURINone, cert(), r.Bytes(20), 1, 1, body)
+					opnReal, _ := rawOpn(uri, cert(), r.Bytes(20), 1, 1, body)
+					opnGarbage, _ := rawOpn("http://x/unknown", r.Bytes(9), nil, 1, 1, body)
+					opnEmpty, _ := rawOpn("", nil, nil, 1, 1, body)
+					forged := []namedFrame{
+						{opnNone, false, "forged plaintext OPN, policy None"},
+						{opnNoneCert, false, "forged plaintext OPN, policy None, with certificate"},
+						{opnReal, false, "forged plaintext OPN, real policy and certificate"},
+						{opnGarbage, false, "forged OPN, unknown policy"},
+						{opnEmpty, false, "forged OPN, empty policy"},
+						plainMsg,
+						{symChunk("MSG", 'F', 8, tokID, 9, 6, body), false, "plaintext MSG, other channel id"},
+					}
+					seq := []namedFrame{own(1), plainMsg}
+					for k := 0; k < 5; k++ {
+						seq = append(seq, forged[r.Intn(len(forged))], plainMsg, own(uint32(10+k)))
+					}
+					for k := range seq {
+						fixSize(seq[k].b)
+					}
+					runC13frames(r, &c, 0, seq)
+					enc.Encode(c)
+				}
+			}
+		}
+	}
+}
+
 func c09(seed uint64, n int, replay string) {
 	r := rng.New(seed)
 	c09toy(r, n)
 	c09real(r, n)
+	c09chan(r, 2*n)
 }
